@@ -335,22 +335,29 @@ func judge(src, want string, env map[string]Val, c any, s *rt.Section, pfx strin
 	return nil
 }
 
-func drawTCase(t *rapid.T, thorough bool) TCase {
-	g := &gen{t: t, defined: map[string]bool{}, litLen: 8}
-	g.budget = rapid.IntRange(6, 60).Draw(t, "budget")
+func drawTCase(t *rapid.T, thorough bool, s *rt.Section) TCase {
+	g := &gen{t: t, defined: map[string]bool{}, litLen: 8, excluded: map[string]int{}}
+	defer func() {
+		for k := range g.excluded {
+			s.Exclude(k)
+		}
+	}()
+	budget := rapid.IntRange(6, 60).Draw(t, "budget")
 	g.maxT = rapid.IntRange(1, 4).Draw(t, "maxT")
 	if thorough {
-		g.budget = rapid.IntRange(6, 150).Draw(t, "budget2")
+		budget = rapid.IntRange(6, 150).Draw(t, "budget2")
 		g.maxT = rapid.IntRange(1, 6).Draw(t, "maxT2")
 		g.litLen = 16
 	}
 	c := TCase{Wrap: rapid.IntRange(0, nWrap-1).Draw(t, "wrap")}
 	npre := rapid.IntRange(0, 4).Draw(t, "npre")
 	for i := 0; i < npre; i++ {
+		g.budget = 4
 		g.tdepth = g.maxT // no templates in the prelude
 		c.Pre = append(c.Pre, &Stmt{K: "expr", E: g.assign(1), Sep: rapid.SampledFrom([]string{";", "; ", ";\n"}).Draw(t, "presep")})
 	}
 	g.tdepth = 0
+	g.budget = budget
 	c.T = g.tmpl()
 	return c
 }
@@ -496,14 +503,21 @@ func buildNest(c NestCase, i int, env map[string]Val) (src, val string, err erro
 	return src, lv.L + innerVal + afterVal + lv.R, nil
 }
 
-func checkNest(c NestCase, s *rt.Section) *rt.Failure {
+func (c NestCase) valid() error {
 	if len(c.Chain) == 0 || c.Chain[0].Kind != "H" || !utf8.ValidString(c.Leaf) {
-		return nil
+		return errInvalid
 	}
 	for _, l := range c.Chain {
-		if l.Kind != "H" && l.Kind != "B" || !utf8.ValidString(l.L) || !utf8.ValidString(l.R) {
-			return nil
+		if l.Kind != "H" && l.Kind != "B" || !utf8.ValidString(l.L) || !utf8.ValidString(l.R) || l.Junk < 0 {
+			return errInvalid
 		}
+	}
+	return nil
+}
+
+func checkNest(c NestCase, s *rt.Section) *rt.Failure {
+	if c.valid() != nil {
+		return nil
 	}
 	env := map[string]Val{}
 	src, want, err := buildNest(c, 0, env)
@@ -538,7 +552,7 @@ func drawNest(t *rapid.T) NestCase {
 		}
 	default:
 		kinds = append(kinds, "H")
-		n := rapid.IntRange(1, 40).Draw(t, "n")
+		n := rapid.IntRange(1, 30).Draw(t, "n")
 		for i := 0; i < n; i++ {
 			kinds = append(kinds, rapid.SampledFrom([]string{"H", "B"}).Draw(t, "kind"))
 		}
@@ -657,7 +671,7 @@ func TestProp(t *testing.T) {
 	defer run.Finish()
 	thorough := run.Env.Thorough()
 
-	run.Check("literal", 120000, 1500000,
+	run.Check("literal", 100000, 800000,
 		"a text of 0..60 characters over an alphabet weighted towards quotes, backslash, braces, %, CR/LF/FF/TAB, 0x1E, escape letters, multi-byte and 4-byte runes, control and format characters (one in ten characters is any Unicode rune), written in one of the four quote styles with a drawn spelling per character (raw / documented escape / raw backslash before a non-escape character), placed in one of 7 contexts (alone, surrounded by blanks, assigned and read back, concatenated with a second literal, inside a hole of a backtick / 0x1E template, after another statement); characters that a style cannot spell (backtick in `…`, 0x1E in 0x1E…0x1E) are replaced and counted; non-trivial = the text needs an escape in that style or an escape spelling was used; distinct by program text",
 		func(t *rapid.T, s *rt.Section) {
 			maxLen := 60
@@ -721,10 +735,10 @@ func TestProp(t *testing.T) {
 			enumLiterals(s, run, enumLen)
 		})
 
-	run.Check("tmpl", 48000, 700000,
+	run.Check("tmpl", 40000, 240000,
 		"a program = up to 4 assignments, then a template (backtick or 0x1E) of 0..8 parts: literal segments over the rich alphabet with drawn spellings, and holes {…} / {% … %} with drawn padding holding 1..4 statements of the restricted hole language (int and string literals, + - * on ints, string concatenation, variables, assignments, if / else if / else blocks that assign, empty statements, arrays of ints, parentheses, nested templates up to depth 4 (6 thorough)), in one of 5 surroundings (alone, between two concatenated strings, as element of an indexed array, assigned and read back, after other statements); expected string and expected variables come from the package's own AST evaluator; holes whose value the documentation leaves open (a value followed by a block as last statement) are not generated; non-trivial = at least 2 holes or nesting depth >= 2 or an assignment / if block executed inside a hole; distinct by program text",
 		func(t *rapid.T, s *rt.Section) {
-			c := drawTCase(t, thorough)
+			c := drawTCase(t, thorough, s)
 			s.Eval()
 			want, _, st, err := c.expected()
 			if err != nil {
@@ -756,8 +770,8 @@ func TestProp(t *testing.T) {
 			s.Report(t, checkTmpl(c, s))
 		})
 
-	run.Check("nest", 8000, 100000,
-		"chains of nested constructs: holes only, one hole holding d nested if-blocks, strictly alternating hole/block, or a random sequence of up to 41 holes and blocks, depth 1..24 (a quarter of the draws at 18..23); every hole level has its own left and right text, optional value-producing statements before the payload and an optional sibling hole after it; blocks pass the inner value out through a variable; expected = the texts in nesting order around the leaf; up to 20 open holes and 20 open blocks (the depth the implementation declares) the result and the variables must be right, beyond that an error is accepted, a crash or a wrong string never; non-trivial = depth >= 2; distinct by program text",
+	run.Check("nest", 4000, 24000,
+		"chains of nested constructs: holes only, one hole holding d nested if-blocks, strictly alternating hole/block, or a random sequence of up to 31 holes and blocks, depth 1..24 (a quarter of the draws at 18..23); every hole level has its own left and right text, optional value-producing statements before the payload and an optional sibling hole after it; blocks pass the inner value out through a variable; expected = the texts in nesting order around the leaf; up to 20 open holes and 20 open blocks (the depth the implementation declares) the result and the variables must be right, beyond that an error is accepted, a crash or a wrong string never; non-trivial = depth >= 2; distinct by program text",
 		func(t *rapid.T, s *rt.Section) {
 			c := drawNest(t)
 			// open findings ask the generator to stay inside the accepted depth (counted)
@@ -828,11 +842,20 @@ func bucketN(n int) string {
 }
 
 func TestReplay(t *testing.T) {
+	// a replay file whose case lies outside the generated domain must not pass silently
+	outside := func(s *rt.Section, c any, err error) *rt.Failure {
+		return s.NewFailure("replay", "replay:case-outside-domain", c, err.Error(), "a case of the generated domain")
+	}
 	lit := func(b []byte, s *rt.Section) *rt.Failure {
 		var c LitCase
 		if err := json.Unmarshal(b, &c); err != nil {
 			return s.NewFailure("replay", "replay:bad-case", nil, err.Error(), "")
 		}
+		src, want, _, err := c.build()
+		if err == errInvalid || err == errUnprintable {
+			return outside(s, c, err)
+		}
+		t.Logf("program %q expected %q", src, want)
 		return checkLit(c, s)
 	}
 	rt.Replay(t, "C13", map[string]rt.ReplayFunc{
@@ -842,6 +865,15 @@ func TestReplay(t *testing.T) {
 			if err := json.Unmarshal(b, &c); err != nil {
 				return s.NewFailure("replay", "replay:bad-case", nil, err.Error(), "")
 			}
+			want, env, _, err := c.expected()
+			if err != nil {
+				return outside(s, c, err)
+			}
+			src, err := c.source()
+			if err != nil {
+				return outside(s, c, err)
+			}
+			t.Logf("program %q expected %q vars %s", src, want, envString(env))
 			return checkTmpl(c, s)
 		},
 		"nest": func(b []byte, s *rt.Section) *rt.Failure {
@@ -849,6 +881,15 @@ func TestReplay(t *testing.T) {
 			if err := json.Unmarshal(b, &c); err != nil {
 				return s.NewFailure("replay", "replay:bad-case", nil, err.Error(), "")
 			}
+			if err := c.valid(); err != nil {
+				return outside(s, c, err)
+			}
+			env := map[string]Val{}
+			src, want, err := buildNest(c, 0, env)
+			if err != nil {
+				return outside(s, c, err)
+			}
+			t.Logf("program %q expected %q vars %s", src, want, envString(env))
 			return checkNest(c, s)
 		},
 	})
